@@ -55,8 +55,13 @@ SOCKS_DEFAULT = dict(MaxIn=30, MaxName=255, Runs='{254, 255, 256, 300}',
                      Fixed='TRUE')
 PERM_DEFAULT = dict(SkipPermitOpen='FALSE', SkipCert='FALSE',
                     LeakOnCancel='FALSE')
+LSN_ALL_KINDS = '{"rfwd", "rsrv", "rpath", "lfwd", "socks", "lpath"}'
+LSN_DEFAULT = dict(N=3, MaxConn=2, KindSet='{"rfwd", "lfwd", "rpath", "socks"}',
+                   HostSet='{"h1", "h2"}', PortSet='{"dyn", "P"}',
+                   WirePortZero='FALSE', KeepClosed='FALSE')
 DEFAULTS = {'Forward': FWD_DEFAULT, 'Socks': SOCKS_DEFAULT,
-            'ForwardPerm': PERM_DEFAULT}
+            'ForwardPerm': PERM_DEFAULT, 'Listeners': LSN_DEFAULT}
+LSN_INVS = ['Routing', 'ClosedRefuses', 'RegistryExact', 'AddressesDistinct']
 
 FWD_INVS_ASIS = ['TypeOK', 'RelayFIFO', 'Complete', 'HalfClose', 'Teardown',
                  'FailureClean', 'NoListenerLeft', 'NoLateChanEof']
@@ -173,6 +178,47 @@ REGRESSIONS = [
      [D, U, W('L', 1), W('R', 1), ('X', 'L'), D, U]),
     ('listener closed while relaying',
      [D, ('LSN',), U, W('L', 1), D, W('R', 1), U, ('C', 'L'), ('C', 'R')]),
+]
+
+# Several listeners on one connection: fixed schedules (model-free labels:
+# every connection into listener k must come out at destination k)
+LC = lambda kind, host='h1', port='dyn': dict(kind=kind, host=host, port=port)
+
+
+def _lsn_schedule(cfgs, closes):
+    """open all; connect into each, forwards and backwards; then close the
+    listed ones one at a time, connecting into every other listener (and the
+    closed address) after each close"""
+    n = len(cfgs)
+    lab = [('open', k + 1, c) for k, c in enumerate(cfgs)]
+    lab += [('connect', k) for k in range(1, n + 1)]
+    lab += [('connect', k) for k in range(n, 0, -1)]
+    alive = list(range(1, n + 1))
+    for k in closes:
+        lab.append(('close', k))
+        alive.remove(k)
+        lab += [('connect', j) for j in alive] + [('cclosed', k)]
+    return lab
+
+
+LSN_REGRESSIONS = [
+    ('three dynamic remote forwards, one host',
+     _lsn_schedule([LC('rfwd')] * 3, [3, 1])),
+    ('dynamic start_server listeners on two hosts',
+     _lsn_schedule([LC('rsrv'), LC('rsrv', 'h2'), LC('rsrv'),
+                    LC('rsrv', 'h2')], [4, 1, 3])),
+    ('fixed and dynamic remote forwards, same port on two hosts',
+     _lsn_schedule([LC('rfwd', 'h1', 'P'), LC('rfwd', 'h2', 'P'), LC('rfwd'),
+                    LC('rsrv', 'h2')], [3, 1])),
+    ('local forwards and SOCKS',
+     _lsn_schedule([LC('lfwd'), LC('socks'), LC('lfwd', 'h2', 'P'),
+                    LC('socks', 'h1', 'P')], [2, 3])),
+    ('UNIX listeners on both sides',
+     _lsn_schedule([LC('rpath', '-', '-'), LC('lpath', '-', '-'),
+                    LC('rpath', '-', '-'), LC('lpath', '-', '-')], [1, 4])),
+    ('all kinds together',
+     _lsn_schedule([LC('rfwd'), LC('lfwd'), LC('rpath', '-', '-'),
+                    LC('rsrv')], [4, 2])),
 ]
 
 # ----------------------------------------------------------------------
@@ -320,6 +366,21 @@ def main(ctx):
                                ('NeverV5Name', 16)]):
         jobs.append(Job(f'socks witness {wname}', 'Socks',
                         dict(MaxIn=depth), [wname], expect=wname))
+    # Listeners (several listeners on one connection)
+    jobs.append(Job('listeners rules', 'Listeners',
+                    {} if quick else dict(MaxConn=3, KindSet=LSN_ALL_KINDS),
+                    LSN_INVS, workers=4))
+    jobs.append(Job('listeners sensitivity WirePortZero (expected Routing)',
+                    'Listeners', dict(WirePortZero='TRUE'), ['Routing'],
+                    expect='Routing'))
+    jobs.append(Job('listeners sensitivity KeepClosed', 'Listeners',
+                    dict(KeepClosed='TRUE'), ['ClosedRefuses'],
+                    expect='ClosedRefuses'))
+    jobs.append(Job('listeners witness older dynamic listener', 'Listeners',
+                    {}, ['NeverOlderDynamic'], expect='NeverOlderDynamic'))
+    if not quick:
+        jobs.append(Job('listeners witness port in use', 'Listeners', {},
+                        ['NeverFailedOpen'], expect='NeverFailedOpen'))
     # ForwardPerm
     jobs.append(Job('perm table', 'ForwardPerm', {}, PERM_INVS, workers=1,
                     dump=True))
@@ -351,7 +412,20 @@ def main(ctx):
             dict(asis, MaxW=3, Keeps=ALL_KEEPS, AllowFail='FALSE',
                  AllowReset='FALSE', AllowCut='FALSE', AllowLsn='FALSE'),
             simulate=n, depth=30, view=False)]
-    run_jobs(ctx, jobs + sims, parallel=5)
+    nl = 40 if quick else 400
+    lsims = [
+        Job('lsn sim all kinds', 'Listeners',
+            dict(N=4, MaxConn=7, KindSet=LSN_ALL_KINDS,
+                 PortSet='{"dyn", "P", "Q"}'),
+            simulate=nl, depth=14, view=False),
+        Job('lsn sim remote', 'Listeners',
+            dict(N=4, MaxConn=7, KindSet='{"rfwd", "rsrv"}'),
+            simulate=nl, depth=14, view=False),
+        Job('lsn sim one host', 'Listeners',
+            dict(N=4, MaxConn=7, KindSet='{"rfwd", "rsrv", "lfwd", "socks"}',
+                 HostSet='{"h1"}', PortSet='{"dyn", "P"}'),
+            simulate=nl, depth=14, view=False)]
+    run_jobs(ctx, jobs + sims + lsims, parallel=6)
     jobmap = {j.name: j for j in jobs + sims}
 
     phase('tlc')
@@ -480,6 +554,49 @@ def main(ctx):
                                       'world': dict(kind=kind)}, 'isolation')
 
     phase('coarse')
+    # ---- 4b. Listeners: several listeners on one connection ----------------
+
+    def judge_listeners(r, rp):
+        for clause, detail, key in r['l1']:
+            finds.add('Listeners', clause, key,
+                      f'{detail}; schedule {" ".join(r["script"])}', rp,
+                      len(r['script']))
+        for e in r.get('loop_exceptions', []):
+            finds.add('Listeners', 'Exception', e[:60],
+                      f'exception reached the event loop: {e}; schedule '
+                      f'{" ".join(r["script"])}', rp, len(r['script']))
+        if not r['l1'] and r.get('diverged'):
+            ctx.divergence(f'Listeners: {r["diverged"]} schedule='
+                           f'{" ".join(r["script"])}')
+
+    nlsn = 0
+    seen_l = set()
+    for j in lsims:
+        for tr in j.traces:
+            labels = [l for l, _ in tr]
+            nconnect = sum(1 for l in labels if l[0] in ('connect', 'cclosed'))
+            key = json.dumps(labels, sort_keys=True)
+            if key in seen_l or nconnect < 2:
+                continue
+            seen_l.add(key)
+            variant = nlsn % 2
+            r = F.replay_listeners(tr, nslots=4, dst_variant=variant)
+            nlsn += 1
+            ctx.count(('listeners', key, variant))
+            if nlsn == 7:
+                ctx.sample({'module': 'Listeners', 'schedule': r['script']})
+            judge_listeners(r, {'kind': 'listeners', 'labels': labels,
+                                'dst_variant': variant})
+    ctx.require(nlsn >= 50, f'only {nlsn} distinct listener behaviours')
+    for name, labels in LSN_REGRESSIONS:
+        for variant in (0, 1):
+            r = F.replay_listeners(labels, nslots=4, dst_variant=variant)
+            nlsn += 1
+            ctx.count(('listeners-regression', name, variant))
+            judge_listeners(r, {'kind': 'listeners', 'labels': labels,
+                                'dst_variant': variant})
+    ctx.traces_validated(nlsn)
+    phase('listeners')
     if not quick:
         # real loopback TCP / UNIX sockets on the real selector loop
         os.makedirs(tlc.WORK, exist_ok=True)
@@ -699,6 +816,12 @@ def replay_one(ctx, F, finds):
                       'Exception', {'input': data.hex()},
                       f'exception reached the event loop: '
                       f'{obs["exceptions"][0]}', rp, 1)
+    elif kind == 'listeners':
+        labels = [tuple(l) for l in rp['labels']]
+        r = F.replay_listeners(labels, nslots=4,
+                               dst_variant=rp.get('dst_variant', 0))
+        for clause, detail, key in r['l1']:
+            finds.add('Listeners', clause, key, detail, rp, 1)
     elif kind == 'perm':
         o = F.perm_case(rp['row'], rp.get('cancel', False))
         print('observed:', {k: o[k] for k in ('served', 'dest_hits', 'left',
